@@ -45,6 +45,12 @@ TABLE = [
      'span index of a token node = token_count at its push < tokens.len() = spans.len() (S1 and one span per token); the phantom end token of known finding P1 is the exception', 1),
     ('^@::Cst::span_text\\|index\\|Index:str\\|Cst\\.source @ Range::clone\\(Vec::index\\(CstData\\.spans\\)\\)$', 'C12,C03',
      'lexer span of this source', 1),
+    ('^@::Cst as std::fmt::Display>::fmt::rec\\|index\\|Index:Vec\\|CstData\\.spans @ ::from\\(Node\\.1\\)$', 'C12,C03',
+     'span index of a token node (see Cst::span_text); reached through `{cst}` in verbose mode, which the call graph cannot see (std formatting)', 1),
+    ('^@::Cst as std::fmt::Display>::fmt::rec\\|index\\|Index:str\\|Cst\\.source @ Range::clone\\(Vec::index\\(CstData\\.spans\\)\\)$', 'C12,C03',
+     'lexer span of this source', 1),
+    ('^@::CstIndex as std::convert::From<usize>>::from\\|panic\\|panicking::panic\\|const:assertion failed: b6 == 0 && b7 == 0$', 'C12,C03',
+     'debug-only assertion that an index fits into 48 bits: node and token counts are bounded by the number of input bytes, far below 2^48', 1),
     ('^@::CstData::children\\|index\\|Index:Vec\\|CstData\\.nodes @ (NodeRef\\.0|Range::Range\\{\\.\\.\\})$', 'C12,C03',
      "NodeRef of an existing node (NODEREF: built only by the child iterator, ROOT, or from a mark); the range ends at the node's stored extent", 2),
     ('^@::CstData::close_root\\|assert:overflow:Sub\\|assert\\|', 'C12,C03',
@@ -135,6 +141,9 @@ def roots_all(G):
         roots += [b.id for b in G.find(n) if b.name == n]
     roots += [b.id for b in G.bodies.values() if b.name.startswith("ide::Cache::")]
     roots += [b.id for b in G.bodies.values() if b.crate in ("lelwel_ls", "llw") and b.name == "main"]
+    # implementations of std traits (Display, From, PartialEq, Ord, Iterator, ..) are called from inside std (format!, `.into()`,
+    # collections), which the call graph does not see: they count as reachable on arbitrary input
+    roots += [b.id for b in G.bodies.values() if re.match(r"^<.* as (std|core|alloc)::", b.name)]
     return roots
 
 
